@@ -31,6 +31,11 @@ pub const fn panic_unlimited_precision() -> ! {
     panic!("precision cannot be 0 (unlimited) for this operation!")
 }
 
+/// Panics when dividing by zero
+pub(crate) fn panic_divide_by_0() -> ! {
+    panic!("divisor must not be 0")
+}
+
 /// Panics when the base of the power operation is negative
 pub const fn panic_power_negative_base() -> ! {
     panic!("powering on negative bases could result in complex number!")
